@@ -113,6 +113,14 @@ def enumerate_cases(tier, seed):
                            min_po2=mn, max_po2=mx, pts=False, keep_negative=True, symmetric=1)
                   if _valid(c, shape):
                     out.append(dict(rank=rank, fam=fam, **c))
+  # the signed 1-bit sign mode of quantized_linear under a data-dependent scale: its clip range is the special-cased
+  # [-0.5, 0.5]; the clauses decided for it are the generic ones (finite outputs, finite positive scale, two codes +-scale/2)
+  for rank in (1, 2, 3, 4):
+    for fam in ("A", "B"):
+      for alpha in ("auto", "auto_po2"):
+        for sym in (1, 0):
+          out.append(dict(cls="quantized_linear", rank=rank, fam=fam, alpha=alpha, bits=1, integer=0, scale_axis=None, eps=None,
+                          min_po2=None, max_po2=None, pts=False, keep_negative=True, symmetric=sym, sign_mode=True))
   # the route every Q layer takes: the quantizer is built with alpha=None (and, for quantized_linear, the asymmetric
   # range), used once, and then switched to alpha='auto_po2', symmetric=True by the layer hook _set_trainable_parameter;
   # the object must then satisfy every clause of the configuration it now reports
@@ -229,6 +237,21 @@ def run_case(cfg):
     digests.append(common.digest(y, scale))
     if y.shape != x.shape or not np.all(np.isfinite(y)):
       bad("finite", "non-finite output (%s)" % pattern, pattern=pattern)
+      continue
+    if cfg.get("sign_mode"):
+      evals += x.size
+      qs = np.asarray(q.quantization_scale, dtype=np.float64)
+      if not (np.all(np.isfinite(qs)) and np.all(qs > 0)):
+        bad("sign-mode:scale-positive-finite", "quantization scale %r (%s)" % (qs.reshape(-1)[:3].tolist(), pattern), pattern=pattern)
+      else:
+        qb = np.broadcast_to(qs, shape)
+        okc = np.isclose(np.abs(y.astype(np.float64)), 0.5 * qb, rtol=1e-6, atol=0) | ((qb * 0.5 < 1e-30) & (y == 0))
+        if not okc.all():
+          i = np.unravel_index(int(np.flatnonzero(~okc.reshape(-1))[0]), shape)
+          bad("sign-mode:codes", "output %r at x=%r is not +-scale/2 = %r (%s)" % (float(y[i]), float(x[i]), float(0.5 * qb[i]), pattern),
+              pattern=pattern)
+      moved = True
+      scales_differ = True
       continue
     evals += x.size
     try:
@@ -352,3 +375,4 @@ def run_case(cfg):
 
 # (appended: sub-lattices added after the seeded waves; kept out of the original RULE text for readability)
 RULE = RULE + '; plus: the layer-hook route (alpha=None object, used once, then _set_trainable_parameter) and the rebuilt-from-config route, each held to the clauses of the configuration the object then reports'
+RULE = RULE + '; the signed 1-bit sign mode of quantized_linear under auto scales (finite outputs, finite positive scale, codes +-scale/2)'
